@@ -15,7 +15,7 @@
 #![allow(dead_code)]
 
 #[cfg(not(kani))]
-pub use std::collections::{BTreeMap, BTreeSet, HashMap, HashSet, VecDeque};
+pub use std::collections::{hash_map, BTreeMap, BTreeSet, HashMap, HashSet, VecDeque};
 
 #[cfg(kani)]
 pub use model::*;
@@ -32,6 +32,52 @@ mod model {
         if n <= 1 { 0 } else { let r: usize = kani::any(); kani::assume(r < n); r }
     }
 
+    // NOTE on style: every slot access below uses a CONCRETE index (a loop counter) guarded by a
+    // possibly symbolic condition. A symbolic index into an array of large elements is what makes
+    // CBMC's formula explode (measured: 33 GB -> 4 GB for the ratchet harness).
+
+    /// slot `i` (symbolic) by concrete scan
+    fn at<T>(slots: &[Option<T>; CAP], i: usize) -> Option<&T> {
+        let mut k = 0;
+        while k < CAP { if k == i { return slots[k].as_ref(); } k += 1; }
+        None
+    }
+    fn at_mut<T>(slots: &mut [Option<T>; CAP], i: usize) -> Option<&mut T> {
+        let mut k = 0;
+        while k < CAP { if k == i { return slots[k].as_mut(); } k += 1; }
+        None
+    }
+    fn put<T>(slots: &mut [Option<T>; CAP], i: usize, v: T) {
+        let mut v = Some(v);
+        let mut k = 0;
+        while k < CAP { if k == i { slots[k] = v.take(); } k += 1; }
+    }
+    fn take_at<T>(slots: &mut [Option<T>; CAP], i: usize) -> Option<T> {
+        let mut k = 0;
+        while k < CAP { if k == i { return slots[k].take(); } k += 1; }
+        None
+    }
+    /// remove slot `i` of a dense prefix of length `len` by moving the last element into it
+    fn swap_remove<T>(slots: &mut [Option<T>; CAP], len: usize, i: usize) -> Option<T> {
+        let out = take_at(slots, i);
+        let last = len - 1;
+        if i != last { let l = take_at(slots, last); if let Some(l) = l { put(slots, i, l); } }
+        out
+    }
+    /// remove slot `i` of a dense prefix keeping the order
+    fn shift_remove<T>(slots: &mut [Option<T>; CAP], len: usize, i: usize) -> Option<T> {
+        let out = take_at(slots, i);
+        let mut k = 1;
+        while k < CAP { if k > i && k < len { slots[k - 1] = slots[k].take(); } k += 1; }
+        out
+    }
+    /// insert at position `pos` of a dense prefix keeping the order
+    fn shift_insert<T>(slots: &mut [Option<T>; CAP], len: usize, pos: usize, v: T) {
+        let mut j = CAP - 1;
+        while j > 0 { if j > pos && j <= len { slots[j] = slots[j - 1].take(); } j -= 1; }
+        put(slots, pos, v);
+    }
+
     // ------------------------------------------------------------------ BTreeMap
     #[derive(Clone, Debug)]
     pub struct BTreeMap<K, V> { slots: [Option<(K, V)>; CAP], len: usize }
@@ -45,43 +91,53 @@ mod model {
         pub fn values(&self) -> impl Iterator<Item = &V> { self.iter().map(|(_, v)| v) }
     }
     impl<K: Ord, V> BTreeMap<K, V> {
+        /// Ok(index of the key) or Err(insert position)
         fn find(&self, k: &K) -> Result<usize, usize> {
             let mut i = 0;
-            while i < self.len {
-                match self.slots[i].as_ref().unwrap().0.cmp(k) {
-                    Ordering::Equal => return Ok(i),
-                    Ordering::Greater => return Err(i),
-                    Ordering::Less => {}
+            while i < CAP {
+                if i < self.len {
+                    match self.slots[i].as_ref().unwrap().0.cmp(k) {
+                        Ordering::Equal => return Ok(i),
+                        Ordering::Greater => return Err(i),
+                        Ordering::Less => {}
+                    }
                 }
                 i += 1;
             }
             Err(self.len)
         }
-        pub fn get(&self, k: &K) -> Option<&V> { match self.find(k) { Ok(i) => self.slots[i].as_ref().map(|p| &p.1), Err(_) => None } }
-        pub fn get_mut(&mut self, k: &K) -> Option<&mut V> { match self.find(k) { Ok(i) => self.slots[i].as_mut().map(|p| &mut p.1), Err(_) => None } }
-        pub fn contains_key(&self, k: &K) -> bool { self.find(k).is_ok() }
-        fn insert_at(&mut self, pos: usize, k: K, v: V) {
-            assert!(self.len < CAP, "model map capacity exceeded (bound of the harness)");
-            let mut j = self.len;
-            while j > pos { self.slots[j] = self.slots[j - 1].take(); j -= 1; }
-            self.slots[pos] = Some((k, v));
-            self.len += 1;
+        pub fn get(&self, k: &K) -> Option<&V> {
+            let mut i = 0;
+            while i < CAP {
+                if i < self.len { if let Some((kk, v)) = &self.slots[i] { if kk == k { return Some(v); } } }
+                i += 1;
+            }
+            None
         }
+        pub fn get_mut(&mut self, k: &K) -> Option<&mut V> {
+            let len = self.len;
+            let mut i = 0;
+            while i < CAP {
+                if i < len { if let Some((kk, _)) = &self.slots[i] { if kk == k { return self.slots[i].as_mut().map(|p| &mut p.1); } } }
+                i += 1;
+            }
+            None
+        }
+        pub fn contains_key(&self, k: &K) -> bool { self.get(k).is_some() }
         pub fn insert(&mut self, k: K, v: V) -> Option<V> {
             match self.find(&k) {
-                Ok(i) => { let old = self.slots[i].take(); self.slots[i] = Some((k, v)); old.map(|p| p.1) }
-                Err(pos) => { self.insert_at(pos, k, v); None }
+                Ok(i) => { let old = take_at(&mut self.slots, i); put(&mut self.slots, i, (k, v)); old.map(|p| p.1) }
+                Err(pos) => {
+                    assert!(self.len < CAP, "model map capacity exceeded (bound of the harness)");
+                    shift_insert(&mut self.slots, self.len, pos, (k, v));
+                    self.len += 1;
+                    None
+                }
             }
         }
         pub fn remove(&mut self, k: &K) -> Option<V> {
             match self.find(k) {
-                Ok(i) => {
-                    let old = self.slots[i].take();
-                    let mut j = i;
-                    while j + 1 < self.len { self.slots[j] = self.slots[j + 1].take(); j += 1; }
-                    self.len -= 1;
-                    old.map(|p| p.1)
-                }
+                Ok(i) => { let old = shift_remove(&mut self.slots, self.len, i); self.len -= 1; old.map(|p| p.1) }
                 Err(_) => None,
             }
         }
@@ -89,14 +145,19 @@ mod model {
     }
     pub struct BEntry<'a, K, V> { map: &'a mut BTreeMap<K, V>, key: K }
     impl<'a, K: Ord, V> BEntry<'a, K, V> {
-        pub fn or_insert(self, v: V) -> &'a mut V {
-            let i = match self.map.find(&self.key) { Ok(i) => i, Err(pos) => { self.map.insert_at(pos, self.key, v); pos } };
-            &mut self.map.slots[i].as_mut().unwrap().1
-        }
         pub fn or_insert_with<F: FnOnce() -> V>(self, f: F) -> &'a mut V {
-            let i = match self.map.find(&self.key) { Ok(i) => i, Err(pos) => { self.map.insert_at(pos, self.key, f()); pos } };
-            &mut self.map.slots[i].as_mut().unwrap().1
+            let i = match self.map.find(&self.key) {
+                Ok(i) => i,
+                Err(pos) => {
+                    assert!(self.map.len < CAP, "model map capacity exceeded (bound of the harness)");
+                    shift_insert(&mut self.map.slots, self.map.len, pos, (self.key, f()));
+                    self.map.len += 1;
+                    pos
+                }
+            };
+            &mut at_mut(&mut self.map.slots, i).unwrap().1
         }
+        pub fn or_insert(self, v: V) -> &'a mut V { self.or_insert_with(move || v) }
         pub fn or_default(self) -> &'a mut V where V: Default { self.or_insert_with(V::default) }
         pub fn and_modify<F: FnOnce(&mut V)>(self, f: F) -> Self { if let Some(v) = self.map.get_mut(&self.key) { f(v); } self }
     }
@@ -106,14 +167,14 @@ mod model {
         fn next(&mut self) -> Option<Self::Item> {
             if self.n >= self.map.len { return None; }
             let i = self.n; self.n += 1;
-            self.map.slots[i].as_ref().map(|p| (&p.0, &p.1))
+            at(&self.map.slots, i).map(|p| (&p.0, &p.1))
         }
     }
     impl<'a, K, V> IntoIterator for &'a BTreeMap<K, V> { type Item = (&'a K, &'a V); type IntoIter = BIter<'a, K, V>; fn into_iter(self) -> BIter<'a, K, V> { BIter { map: self, n: 0 } } }
     pub struct BIntoIter<K, V> { slots: [Option<(K, V)>; CAP], len: usize, n: usize }
     impl<K, V> Iterator for BIntoIter<K, V> {
         type Item = (K, V);
-        fn next(&mut self) -> Option<(K, V)> { if self.n >= self.len { return None; } let i = self.n; self.n += 1; self.slots[i].take() }
+        fn next(&mut self) -> Option<(K, V)> { if self.n >= self.len { return None; } let i = self.n; self.n += 1; take_at(&mut self.slots, i) }
     }
     impl<K, V> IntoIterator for BTreeMap<K, V> { type Item = (K, V); type IntoIter = BIntoIter<K, V>; fn into_iter(self) -> BIntoIter<K, V> { BIntoIter { slots: self.slots, len: self.len, n: 0 } } }
     impl<K: Ord, V> FromIterator<(K, V)> for BTreeMap<K, V> { fn from_iter<I: IntoIterator<Item = (K, V)>>(it: I) -> Self { let mut m = Self::default(); for (k, v) in it { m.insert(k, v); } m } }
@@ -122,14 +183,14 @@ mod model {
         fn eq(&self, o: &Self) -> bool {
             if self.len != o.len { return false; }
             let mut i = 0;
-            while i < self.len { if self.slots[i] != o.slots[i] { return false; } i += 1; }
+            while i < CAP { if i < self.len && self.slots[i] != o.slots[i] { return false; } i += 1; }
             true
         }
     }
     impl<K: Eq, V: Eq> Eq for BTreeMap<K, V> {}
     impl<K: PartialOrd, V: PartialOrd> PartialOrd for BTreeMap<K, V> { fn partial_cmp(&self, o: &Self) -> Option<Ordering> { self.into_iter().partial_cmp(o.into_iter()) } }
     impl<K: Ord, V: Ord> Ord for BTreeMap<K, V> { fn cmp(&self, o: &Self) -> Ordering { self.into_iter().cmp(o.into_iter()) } }
-    impl<K: Hash, V: Hash> Hash for BTreeMap<K, V> { fn hash<H: Hasher>(&self, h: &mut H) { self.len.hash(h); let mut i = 0; while i < self.len { self.slots[i].hash(h); i += 1; } } }
+    impl<K: Hash, V: Hash> Hash for BTreeMap<K, V> { fn hash<H: Hasher>(&self, h: &mut H) { self.len.hash(h); let mut i = 0; while i < CAP { if i < self.len { self.slots[i].hash(h); } i += 1; } } }
 
     // ------------------------------------------------------------------ HashMap
     #[derive(Clone, Debug)]
@@ -141,41 +202,66 @@ mod model {
         pub fn len(&self) -> usize { self.len }
         pub fn is_empty(&self) -> bool { self.len == 0 }
         pub fn iter(&self) -> HIter<'_, K, V> { HIter { map: self, start: any_rot(self.len), n: 0 } }
-        pub fn keys(&self) -> impl Iterator<Item = &K> { self.iter().map(|(k, _)| k) }
-        pub fn values(&self) -> impl Iterator<Item = &V> { self.iter().map(|(_, v)| v) }
-        pub fn clear(&mut self) { let mut i = 0; while i < self.len { self.slots[i] = None; i += 1; } self.len = 0; }
+        pub fn keys(&self) -> hash_map::Keys<'_, K, V> { hash_map::Keys(self.iter()) }
+        pub fn values(&self) -> hash_map::Values<'_, K, V> { hash_map::Values(self.iter()) }
+        pub fn clear(&mut self) { let mut i = 0; while i < CAP { self.slots[i] = None; i += 1; } self.len = 0; }
+    }
+    /// `std::collections::hash_map::{Iter, IntoIter, Keys, Values}` as named types
+    pub mod hash_map {
+        pub type Iter<'a, K, V> = super::HIter<'a, K, V>;
+        pub type IntoIter<K, V> = super::HIntoIter<K, V>;
+        pub struct Keys<'a, K, V>(pub(super) super::HIter<'a, K, V>);
+        impl<'a, K, V> Iterator for Keys<'a, K, V> { type Item = &'a K; fn next(&mut self) -> Option<&'a K> { self.0.next().map(|(k, _)| k) } }
+        pub struct Values<'a, K, V>(pub(super) super::HIter<'a, K, V>);
+        impl<'a, K, V> Iterator for Values<'a, K, V> { type Item = &'a V; fn next(&mut self) -> Option<&'a V> { self.0.next().map(|(_, v)| v) } }
+    }
+    impl<K: Eq, V> Extend<(K, V)> for HashMap<K, V> {
+        fn extend<I: IntoIterator<Item = (K, V)>>(&mut self, it: I) { for (k, v) in it { self.insert(k, v); } }
     }
     impl<K: Eq, V> HashMap<K, V> {
         fn find(&self, k: &K) -> Option<usize> {
             let mut i = 0;
-            while i < self.len { if let Some((kk, _)) = &self.slots[i] { if kk == k { return Some(i); } } i += 1; }
+            while i < CAP { if i < self.len { if let Some((kk, _)) = &self.slots[i] { if kk == k { return Some(i); } } } i += 1; }
             None
         }
-        pub fn get(&self, k: &K) -> Option<&V> { match self.find(k) { Some(i) => self.slots[i].as_ref().map(|p| &p.1), None => None } }
-        pub fn get_mut(&mut self, k: &K) -> Option<&mut V> { match self.find(k) { Some(i) => self.slots[i].as_mut().map(|p| &mut p.1), None => None } }
-        pub fn contains_key(&self, k: &K) -> bool { self.find(k).is_some() }
+        pub fn get(&self, k: &K) -> Option<&V> {
+            let mut i = 0;
+            while i < CAP { if i < self.len { if let Some((kk, v)) = &self.slots[i] { if kk == k { return Some(v); } } } i += 1; }
+            None
+        }
+        pub fn get_mut(&mut self, k: &K) -> Option<&mut V> {
+            let len = self.len;
+            let mut i = 0;
+            while i < CAP {
+                if i < len { if let Some((kk, _)) = &self.slots[i] { if kk == k { return self.slots[i].as_mut().map(|p| &mut p.1); } } }
+                i += 1;
+            }
+            None
+        }
+        pub fn contains_key(&self, k: &K) -> bool { self.get(k).is_some() }
         fn push(&mut self, k: K, v: V) -> usize {
             assert!(self.len < CAP, "model map capacity exceeded (bound of the harness)");
-            let i = self.len; self.slots[i] = Some((k, v)); self.len += 1; i
+            let i = self.len;
+            put(&mut self.slots, i, (k, v));
+            self.len += 1;
+            i
         }
         pub fn insert(&mut self, k: K, v: V) -> Option<V> {
-            if let Some(i) = self.find(&k) {
-                let old = self.slots[i].take();
-                self.slots[i] = Some((k, v));
-                return old.map(|p| p.1);
+            let len = self.len;
+            let mut i = 0;
+            while i < CAP {
+                if i < len {
+                    let hit = match &self.slots[i] { Some((kk, _)) => *kk == k, None => false };
+                    if hit { let old = self.slots[i].take(); self.slots[i] = Some((k, v)); return old.map(|p| p.1); }
+                }
+                i += 1;
             }
             self.push(k, v);
             None
         }
         pub fn remove(&mut self, k: &K) -> Option<V> {
             match self.find(k) {
-                Some(i) => {
-                    let old = self.slots[i].take();
-                    let last = self.len - 1;
-                    if i != last { self.slots[i] = self.slots[last].take(); }
-                    self.len = last;
-                    old.map(|p| p.1)
-                }
+                Some(i) => { let old = swap_remove(&mut self.slots, self.len, i); self.len -= 1; old.map(|p| p.1) }
                 None => None,
             }
         }
@@ -184,26 +270,23 @@ mod model {
     pub struct HEntry<'a, K, V> { map: &'a mut HashMap<K, V>, key: K }
     impl<'a, K: Eq, V> HEntry<'a, K, V> {
         pub fn and_modify<F: FnOnce(&mut V)>(self, f: F) -> Self { if let Some(v) = self.map.get_mut(&self.key) { f(v); } self }
-        pub fn or_insert(self, v: V) -> &'a mut V {
-            let i = match self.map.find(&self.key) { Some(i) => i, None => self.map.push(self.key, v) };
-            &mut self.map.slots[i].as_mut().unwrap().1
-        }
         pub fn or_insert_with<F: FnOnce() -> V>(self, f: F) -> &'a mut V {
             let i = match self.map.find(&self.key) { Some(i) => i, None => self.map.push(self.key, f()) };
-            &mut self.map.slots[i].as_mut().unwrap().1
+            &mut at_mut(&mut self.map.slots, i).unwrap().1
         }
+        pub fn or_insert(self, v: V) -> &'a mut V { self.or_insert_with(move || v) }
         pub fn or_default(self) -> &'a mut V where V: Default { self.or_insert_with(V::default) }
     }
+    fn rot(start: usize, n: usize, len: usize) -> usize { let idx = start + n; if idx >= len { idx - len } else { idx } }
     pub struct HIter<'a, K, V> { map: &'a HashMap<K, V>, start: usize, n: usize }
     impl<'a, K, V> Iterator for HIter<'a, K, V> {
         type Item = (&'a K, &'a V);
         fn next(&mut self) -> Option<Self::Item> {
             let len = self.map.len;
             if self.n >= len { return None; }
-            let mut idx = self.start + self.n;
-            if idx >= len { idx -= len; }
+            let idx = rot(self.start, self.n, len);
             self.n += 1;
-            self.map.slots[idx].as_ref().map(|p| (&p.0, &p.1))
+            at(&self.map.slots, idx).map(|p| (&p.0, &p.1))
         }
     }
     impl<'a, K, V> IntoIterator for &'a HashMap<K, V> { type Item = (&'a K, &'a V); type IntoIter = HIter<'a, K, V>; fn into_iter(self) -> HIter<'a, K, V> { self.iter() } }
@@ -212,10 +295,9 @@ mod model {
         type Item = (K, V);
         fn next(&mut self) -> Option<(K, V)> {
             if self.n >= self.len { return None; }
-            let mut idx = self.start + self.n;
-            if idx >= self.len { idx -= self.len; }
+            let idx = rot(self.start, self.n, self.len);
             self.n += 1;
-            self.slots[idx].take()
+            take_at(&mut self.slots, idx)
         }
     }
     impl<K, V> IntoIterator for HashMap<K, V> { type Item = (K, V); type IntoIter = HIntoIter<K, V>; fn into_iter(self) -> HIntoIter<K, V> { let start = any_rot(self.len); HIntoIter { slots: self.slots, len: self.len, start, n: 0 } } }
@@ -224,9 +306,8 @@ mod model {
         fn eq(&self, o: &Self) -> bool {
             if self.len != o.len { return false; }
             let mut i = 0;
-            while i < self.len {
-                let (k, v) = self.slots[i].as_ref().unwrap();
-                if o.get(k) != Some(v) { return false; }
+            while i < CAP {
+                if i < self.len { let (k, v) = self.slots[i].as_ref().unwrap(); if o.get(k) != Some(v) { return false; } }
                 i += 1;
             }
             true
@@ -244,28 +325,28 @@ mod model {
         pub fn len(&self) -> usize { self.len }
         pub fn is_empty(&self) -> bool { self.len == 0 }
         pub fn iter(&self) -> SIter<'_, T> { SIter { set: self, start: any_rot(self.len), n: 0 } }
-        pub fn clear(&mut self) { let mut i = 0; while i < self.len { self.slots[i] = None; i += 1; } self.len = 0; }
+        pub fn clear(&mut self) { let mut i = 0; while i < CAP { self.slots[i] = None; i += 1; } self.len = 0; }
     }
     impl<T: Eq> HashSet<T> {
-        pub fn contains(&self, t: &T) -> bool { let mut i = 0; while i < self.len { if self.slots[i].as_ref() == Some(t) { return true; } i += 1; } false }
+        fn find(&self, t: &T) -> Option<usize> {
+            let mut i = 0;
+            while i < CAP { if i < self.len && self.slots[i].as_ref() == Some(t) { return Some(i); } i += 1; }
+            None
+        }
+        pub fn contains(&self, t: &T) -> bool { self.find(t).is_some() }
         pub fn insert(&mut self, t: T) -> bool {
             if self.contains(&t) { return false; }
             assert!(self.len < CAP, "model set capacity exceeded (bound of the harness)");
-            self.slots[self.len] = Some(t); self.len += 1; true
+            let i = self.len;
+            put(&mut self.slots, i, t);
+            self.len += 1;
+            true
         }
         pub fn remove(&mut self, t: &T) -> bool {
-            let mut i = 0;
-            while i < self.len {
-                if self.slots[i].as_ref() == Some(t) {
-                    let last = self.len - 1;
-                    self.slots[i] = None;
-                    if i != last { self.slots[i] = self.slots[last].take(); }
-                    self.len = last;
-                    return true;
-                }
-                i += 1;
+            match self.find(t) {
+                Some(i) => { swap_remove(&mut self.slots, self.len, i); self.len -= 1; true }
+                None => false,
             }
-            false
         }
     }
     pub struct SIter<'a, T> { set: &'a HashSet<T>, start: usize, n: usize }
@@ -274,10 +355,9 @@ mod model {
         fn next(&mut self) -> Option<&'a T> {
             let len = self.set.len;
             if self.n >= len { return None; }
-            let mut idx = self.start + self.n;
-            if idx >= len { idx -= len; }
+            let idx = rot(self.start, self.n, len);
             self.n += 1;
-            self.set.slots[idx].as_ref()
+            at(&self.set.slots, idx)
         }
     }
     impl<'a, T> IntoIterator for &'a HashSet<T> { type Item = &'a T; type IntoIter = SIter<'a, T>; fn into_iter(self) -> SIter<'a, T> { self.iter() } }
@@ -286,25 +366,27 @@ mod model {
         type Item = T;
         fn next(&mut self) -> Option<T> {
             if self.n >= self.len { return None; }
-            let mut idx = self.start + self.n;
-            if idx >= self.len { idx -= self.len; }
+            let idx = rot(self.start, self.n, self.len);
             self.n += 1;
-            self.slots[idx].take()
+            take_at(&mut self.slots, idx)
         }
     }
     impl<T> IntoIterator for HashSet<T> { type Item = T; type IntoIter = SIntoIter<T>; fn into_iter(self) -> SIntoIter<T> { let start = any_rot(self.len); SIntoIter { slots: self.slots, len: self.len, start, n: 0 } } }
     impl<T: Eq> FromIterator<T> for HashSet<T> { fn from_iter<I: IntoIterator<Item = T>>(iter: I) -> Self { let mut s = HashSet::new(); for t in iter { s.insert(t); } s } }
+    impl<T: Eq> Extend<T> for HashSet<T> { fn extend<I: IntoIterator<Item = T>>(&mut self, it: I) { for t in it { self.insert(t); } } }
     impl<T: Eq> PartialEq for HashSet<T> {
         fn eq(&self, o: &Self) -> bool {
             if self.len != o.len { return false; }
             let mut i = 0;
-            while i < self.len { if !o.contains(self.slots[i].as_ref().unwrap()) { return false; } i += 1; }
+            while i < CAP { if i < self.len && !o.contains(self.slots[i].as_ref().unwrap()) { return false; } i += 1; }
             true
         }
     }
     impl<T: Eq> Eq for HashSet<T> {}
 
     // ------------------------------------------------------------------ VecDeque
+    // All slot accesses use CONCRETE indices guarded by (symbolic) conditions: a symbolic array index
+    // into an array of large elements is what makes CBMC's formula explode.
     #[derive(Clone, Debug)]
     pub struct VecDeque<T> { slots: [Option<T>; CAP], len: usize, cap: usize }
     impl<T> Default for VecDeque<T> { fn default() -> Self { Self { slots: empty(), len: 0, cap: 0 } } }
@@ -320,34 +402,50 @@ mod model {
             if self.len == 0 { return None; }
             let out = self.slots[0].take();
             let mut i = 1;
-            while i < self.len { self.slots[i - 1] = self.slots[i].take(); i += 1; }
+            while i < CAP { if i < self.len { self.slots[i - 1] = self.slots[i].take(); } i += 1; }
             self.len -= 1;
             out
         }
         pub fn push_back(&mut self, t: T) {
             assert!(self.len < CAP, "model deque capacity exceeded (bound of the harness)");
             if self.len >= self.cap { self.cap = self.len + 1; }
-            self.slots[self.len] = Some(t);
+            let mut t = Some(t);
+            let mut i = 0;
+            while i < CAP { if i == self.len { self.slots[i] = t.take(); } i += 1; }
             self.len += 1;
         }
         pub fn push_front(&mut self, t: T) {
             assert!(self.len < CAP, "model deque capacity exceeded (bound of the harness)");
             if self.len >= self.cap { self.cap = self.len + 1; }
-            let mut j = self.len;
-            while j > 0 { self.slots[j] = self.slots[j - 1].take(); j -= 1; }
+            let mut j = CAP - 1;
+            while j > 0 { if j <= self.len { self.slots[j] = self.slots[j - 1].take(); } j -= 1; }
             self.slots[0] = Some(t);
             self.len += 1;
         }
-        pub fn truncate(&mut self, n: usize) { while self.len > n { self.len -= 1; self.slots[self.len] = None; } }
-        pub fn get(&self, i: usize) -> Option<&T> { if i < self.len { self.slots[i].as_ref() } else { None } }
-        pub fn get_mut(&mut self, i: usize) -> Option<&mut T> { if i < self.len { self.slots[i].as_mut() } else { None } }
-        pub fn front(&self) -> Option<&T> { self.get(0) }
+        pub fn truncate(&mut self, n: usize) {
+            let mut k = 0;
+            while k < CAP { if k >= n && k < self.len { self.slots[k] = None; } k += 1; }
+            if self.len > n { self.len = n; }
+        }
+        pub fn get(&self, i: usize) -> Option<&T> {
+            if i >= self.len { return None; }
+            let mut k = 0;
+            while k < CAP { if k == i { return self.slots[k].as_ref(); } k += 1; }
+            None
+        }
+        pub fn get_mut(&mut self, i: usize) -> Option<&mut T> {
+            if i >= self.len { return None; }
+            let mut k = 0;
+            while k < CAP { if k == i { return self.slots[k].as_mut(); } k += 1; }
+            None
+        }
+        pub fn front(&self) -> Option<&T> { if self.len == 0 { None } else { self.slots[0].as_ref() } }
         pub fn iter(&self) -> DIter<'_, T> { DIter { d: self, n: 0 } }
     }
     pub struct DIter<'a, T> { d: &'a VecDeque<T>, n: usize }
     impl<'a, T> Iterator for DIter<'a, T> {
         type Item = &'a T;
-        fn next(&mut self) -> Option<&'a T> { if self.n >= self.d.len { return None; } let i = self.n; self.n += 1; self.d.slots[i].as_ref() }
+        fn next(&mut self) -> Option<&'a T> { if self.n >= self.d.len { return None; } let i = self.n; self.n += 1; self.d.get(i) }
     }
 
     // ------------------------------------------------------------------ serde (only where the file under test derives it)
